@@ -57,8 +57,8 @@ pub fn check(case: &Kv, rep: &mut Report) {
     if from.count() >= 2 && from != to {
         rep.nontrivial += 1;
     }
-    // flatten / get_flat of the source
-    if let Dims::Chw(..) = from {
+    // flatten / get_flat of the source (of a vector: the vector itself)
+    {
         rep.transitions += 2;
         match guard(|| (src.flatten(), src.get_flat())) {
             Ok((f, g)) => {
